@@ -196,6 +196,12 @@ func c06BoundaryStrings() []zooItem {
 			out = append(out, zooItem{fmt.Sprintf("%d bytes then %q", n, tail), strings.Repeat("a", n) + tail})
 		}
 	}
+	// texts that consist of UTF-8 continuation bytes only (no rune ever starts): anything that walks back or forward
+	// to a rune start must stop at the ends
+	for _, n := range []int{1, 17, 33, 64, 65, 66, 129, 257} {
+		out = append(out, zooItem{fmt.Sprintf("%d continuation bytes", n), strings.Repeat("\x80", n)})
+		out = append(out, zooItem{fmt.Sprintf("%d continuation bytes then a digit", n), strings.Repeat("\xbf", n) + "1"})
+	}
 	return out
 }
 
